@@ -131,13 +131,17 @@ struct Track {
 
 /// One `inflate()` call with symbolic sizes/flush; asserts every per-call clause of C13.
 fn one_call(state: &mut InflateState, t: &mut Track, max_in: usize, max_out: usize) {
-    let input: [u8; 2] = kani::any();
-    let mut output = [0u8; 3];
     let n_in: usize = kani::any();
     let n_out: usize = kani::any();
     kani::assume(n_in <= max_in && n_out <= max_out);
     let fl: u8 = kani::any();
     kani::assume(fl < 4);
+    one_call_with(state, t, n_in, n_out, fl)
+}
+
+fn one_call_with(state: &mut InflateState, t: &mut Track, n_in: usize, n_out: usize, fl: u8) {
+    let input: [u8; 2] = kani::any();
+    let mut output = [0u8; 3];
     let flush = flush_from(fl);
     let before = state.verif_parts();
     let g_before = unsafe { G_N };
@@ -235,6 +239,52 @@ fn w_inflate_first() {
     one_call(&mut state, &mut t, 2, 2);
 }
 
+/// C13 (quick members): first call with concrete sizes and flush, symbolic format and core behaviour.
+fn first_call_concrete(n_in: usize, n_out: usize, fl: u8) {
+    reset_ghost();
+    unsafe { MAX_WRITE = 2 };
+    let fmt: u8 = kani::any();
+    kani::assume(fmt < 3);
+    let mut state = InflateState::new_boxed(format_from(fmt));
+    let mut t = Track { delivered: 0, ended: false, data_err: false, buf_sticky: false, finished_seen: false };
+    one_call_with(&mut state, &mut t, n_in, n_out, fl);
+    // format -> flags (C09)
+    if unsafe { CORE_CALLS } > 0 {
+        let f = unsafe { LAST_FLAGS };
+        assert!((f & TINFL_FLAG_PARSE_ZLIB_HEADER != 0) == (fmt != 0));
+        assert!((f & TINFL_FLAG_IGNORE_ADLER32 != 0) == (fmt != 1));
+        assert!((f & TINFL_FLAG_HAS_MORE_INPUT != 0) == (fl != 2));
+    }
+}
+
+#[kani::proof]
+#[kani::unwind(4)]
+#[kani::stub(mzcore::decompress, decompress_contract)]
+fn w_inflate_c_none_2_2() {
+    first_call_concrete(2, 2, 0)
+}
+
+#[kani::proof]
+#[kani::unwind(4)]
+#[kani::stub(mzcore::decompress, decompress_contract)]
+fn w_inflate_c_finish_2_1() {
+    first_call_concrete(2, 1, 2)
+}
+
+#[kani::proof]
+#[kani::unwind(4)]
+#[kani::stub(mzcore::decompress, decompress_contract)]
+fn w_inflate_c_sync_0_2() {
+    first_call_concrete(0, 2, 1)
+}
+
+#[kani::proof]
+#[kani::unwind(4)]
+#[kani::stub(mzcore::decompress, decompress_contract)]
+fn w_inflate_c_full_1_1() {
+    first_call_concrete(1, 1, 3)
+}
+
 /// C13 (a'): every sequence of two inflate() calls from a fresh state.
 #[kani::proof]
 #[kani::unwind(4)]
@@ -277,26 +327,6 @@ fn w_inflate_format_flags() {
     kani::cover!(fmt == 2 && fl == 2);
 }
 
-#[kani::proof]
-#[kani::unwind(4)]
-#[kani::stub(mzcore::decompress, decompress_contract)]
-fn probe_inflate_concrete_sizes() {
-    reset_ghost();
-    let mut state = InflateState::new_boxed(DataFormat::Raw);
-    let input: [u8; 2] = kani::any();
-    let mut output = [0u8; 2];
-    let res = inflate(&mut state, &input, &mut output, MZFlush::None);
-    assert!(res.bytes_consumed <= 2);
-    assert!(res.bytes_written <= 2);
-}
-
-#[kani::proof]
-#[kani::unwind(4)]
-#[kani::stub(mzcore::decompress, decompress_contract)]
-fn probe_inflate_concrete_sizes_path() {
-    probe_inflate_concrete_sizes()
-}
-
 // ------------------------------------------------------------------------------------------
 // One-shot helpers over the contract stub (C01/C03/C05/C08).
 use miniz_oxide::inflate::{decompress_slice_iter_to_slice, decompress_to_vec_with_limit, decompress_to_vec_zlib_with_limit};
@@ -324,12 +354,12 @@ pub fn decompress_contract_fresh(
 #[kani::stub(mzcore::decompress, decompress_contract_fresh)]
 fn w_vec_limit() {
     reset_ghost();
-    unsafe { MAX_WRITE = 8 };
+    unsafe { MAX_WRITE = 4 };
     let input: [u8; 2] = kani::any();
     let n: usize = kani::any();
-    kani::assume(n <= 2);
+    kani::assume(n <= 1);
     let limit: usize = kani::any();
-    kani::assume(limit <= 8);
+    kani::assume(limit <= 4);
     let zlib: bool = kani::any();
     let res = if zlib {
         decompress_to_vec_zlib_with_limit(&input[..n], limit)
@@ -370,7 +400,7 @@ fn w_vec_limit() {
             core::mem::forget(e);
         }
     }
-    kani::cover!(produced == limit && limit > 2);
+    kani::cover!(produced == limit && limit > 1);
 }
 
 /// C03/C05: decompress_slice_iter_to_slice over two slices.
